@@ -57,6 +57,11 @@ def main():
     if api.FAILED and out["outcome"] != "precondition-not-satisfied-natively":
         if base in api.FAILED or want in api.FAILED:
             out["outcome"] = "confirmed"
+        elif base.startswith(("inv-init:", "inv-step:", "pre@", "side:")):
+            # cut-point obligations have no native counterpart: the same inputs making a
+            # postcondition of the harness fail on the real code confirm the violation
+            out["outcome"] = "confirmed"
+            out["confirmed_via"] = list(api.FAILED)
         else:
             out["outcome"] = "other-obligation-failed"
     out["inputs"] = {k: (v if not isinstance(v, bytes) else v.hex()) for k, v in zip(inspect.signature(f).parameters, args) if not isinstance(v, dict)}
